@@ -62,6 +62,11 @@ noncomputable def mhKernelD (lam : Measure X) [SFinite lam] (π : X → ℝ) (q 
     ProbabilityTheory.Kernel X X :=
   accKernel lam q (mhAlphaD π q)
 
+/-- the Metropolis–Hastings kernel for a proposal `q(x,·) • ρ(x,·)` with reference kernel `ρ` -/
+noncomputable def mhKernelR (ρ : ProbabilityTheory.Kernel X X) [IsSFiniteKernel ρ] (π : X → ℝ)
+    (q : X → X → ℝ) : ProbabilityTheory.Kernel X X :=
+  accKernelR ρ q (mhAlphaD π q)
+
 /-- the reference pair `(lam, ρ)` is symmetric: `lam(dx) ρ(x,dy)` is invariant under `(x,y) ↦ (y,x)` -/
 def SymmRef (lam : Measure X) (ρ : ProbabilityTheory.Kernel X X) : Prop :=
   ∀ G : X → X → ℝ≥0∞, Measurable (Function.uncurry G) →
@@ -393,6 +398,13 @@ lemma symmRef_coord (j : Fin (n + 1)) :
     (volume_preserving_piFinSuccAbove (fun _ => ℝ) j).symm.map_eq
   rw [hv] at h
   exact h
+
+/-- single-coordinate Metropolis–Hastings kernel on `ℝ^(n+1)` (one iteration of the CWMH loop):
+    propose `x[j := t]` with `t ~ q(x, x[j := t]) dt`, accept with the MH probability -/
+noncomputable def cwKernel (j : Fin (n + 1)) (π : (Fin (n + 1) → ℝ) → ℝ)
+    (q : (Fin (n + 1) → ℝ) → (Fin (n + 1) → ℝ) → ℝ) :
+    ProbabilityTheory.Kernel (Fin (n + 1) → ℝ) (Fin (n + 1) → ℝ) :=
+  mhKernelR (coordRef j) π q
 
 end coord
 
